@@ -94,6 +94,13 @@ def reserved_covers_emitted(tier="quick", seed=0):
         discharged += 1
     else:
         missing.append(("<user reserved names are not honoured>", "ModuleScope.__init__"))
+    # VHDL names are not case sensitive and complete_setup tests `name.lower() in used_names`: a reserved name given in
+    # another spelling must be found by that test
+    obligations += 1
+    if "foo_reserved" in set(VR.ModuleScope(additional_reserved_names={"FOO_Reserved"})._used_names):
+        discharged += 1
+    else:
+        missing.append(("<user reserved names are compared case sensitively>", "ModuleScope.__init__"))
     for w, where in missing:
         violations.append({
             "kind": "custom", "counted": True, "qual": "<C06 reserved_covers_emitted>", "case": w, "oid": f"C06/reserved_covers_emitted[{w}]", "check": "reserved_covers_emitted", "key": w,
@@ -112,6 +119,9 @@ def replay_reserved(payload):
 
     VR = importlib.import_module("cohdl._compiler.backend.vhdl._vhdl_repr")
     w = payload["identifier"]
+    if w.startswith("<user reserved names are compared"):
+        rc, out = _run_design(_RESERVED_CASE_DESIGN)
+        return {"reproduced": rc == 0 and "KEEPS-NAME" in out, "detail": out[-300:]}
     taken = w in VR.ModuleScope()._used_names
     return {"reproduced": not taken, "detail": f"ModuleScope()._used_names contains {w!r}: {taken}; a user object named {w!r} keeps its name and hides the predefined {w!r} the emitted text relies on"}
 
@@ -204,6 +214,136 @@ t = std.VhdlCompiler.to_string(E)
 i = t.find("with ")
 print(t[i:t.find(";", i) + 1].replace("\\n", " "))
 '''
+
+
+_RESERVED_CASE_DESIGN = '''
+from cohdl import Entity, Port, Bit, Signal, std
+class E(Entity):
+    a = Port.input(Bit)
+    o = Port.output(Bit)
+    def architecture(self):
+        s = Signal[Bit](name="foo_reserved")
+        @std.concurrent
+        def logic():
+            s.next = self.a
+            self.o <<= s
+t = std.VhdlCompiler.to_string(E, additional_reserved_names={"FOO_Reserved"})
+print("KEEPS-NAME" if "signal foo_reserved :" in t else "RENAMED")
+'''
+
+_IDENTIFIER_DESIGN = '''
+import re
+from cohdl import Entity, Port, Bit, Signal, std
+class E(Entity):
+    a = Port.input(Bit)
+    o = Port.output(Bit)
+    def architecture(self):
+        x__y = Signal[Bit]()
+        digit = Signal[Bit](name="1x")
+        under = Signal[Bit](name="_")
+        odd = Signal[Bit](name="a-b c")
+        @std.concurrent
+        def logic():
+            x__y.next = self.a
+            digit.next = x__y
+            under.next = digit
+            odd.next = under
+            self.o <<= odd
+t = std.VhdlCompiler.to_string(E)
+names = re.findall(r"^\\s*signal (.*?) :", t, re.M)
+bad = [n for n in names if not re.fullmatch(r"[a-zA-Z](_?[a-zA-Z0-9])*", n)]
+print("ILLEGAL" if bad else "LEGAL", names)
+'''
+
+
+def replay_invalid_identifier(payload):
+    rc, out = _run_design(_IDENTIFIER_DESIGN)
+    return {"reproduced": rc == 0 and "ILLEGAL" in out, "detail": out[-300:]}
+
+
+_BASIC_IDENTIFIER = r"[a-zA-Z](_?[a-zA-Z0-9])*"
+
+
+def identifier_sweep(tier="quick", seed=0):
+    """BOUNDED: VhdlScope._valid_identifier against the LRM grammar of a basic identifier, exhaustively over all strings up
+    to length 4 (quick) / 5 (thorough) over an alphabet with one representative per character class, times the fallbacks
+    complete_setup passes.  A legal identifier must come back unchanged (declared port / entity names are compared with it)."""
+    import importlib
+    import itertools
+    import re
+
+    VR = importlib.import_module("cohdl._compiler.backend.vhdl._vhdl_repr")
+    fn = VR.VhdlScope.__dict__.get("_valid_identifier")
+    if fn is None:
+        # the function the complete_setup contract relies on is gone: that contract's valid-identifier obligation decides
+        return {"evaluations": 0, "distinct": 0, "violations": [], "samples": [{"note": "VhdlScope._valid_identifier not present"}], "bounded": []}
+    fn = fn.__func__
+    alphabet = ["a", "Z", "7", "_", "-", " ", "é", "."]
+    max_len = 4 if tier == "quick" else 5
+    n = 0
+    fails = {}
+    for length in range(0, max_len + 1):
+        for chars in itertools.product(alphabet, repeat=length):
+            s = "".join(chars)
+            for fallback in (None, "sig", "array_type"):
+                n += 1
+                try:
+                    got = fn(s, fallback)
+                except Exception as e:  # noqa: BLE001
+                    fails.setdefault("raises", f"_valid_identifier({s!r}, {fallback!r}) raised {type(e).__name__}: {e}")
+                    continue
+                if not (isinstance(got, str) and re.fullmatch(_BASIC_IDENTIFIER, got)):
+                    fails.setdefault("result is not a basic identifier", f"_valid_identifier({s!r}, {fallback!r}) = {got!r}")
+                elif re.fullmatch(_BASIC_IDENTIFIER, s) and got != s:
+                    fails.setdefault("changes a legal identifier", f"_valid_identifier({s!r}, {fallback!r}) = {got!r}")
+    violations = []
+    for key, what in sorted(fails.items()):
+        oid = f"C06/identifier-sweep[{key}]#bounded"
+        violations.append({"kind": "custom", "qual": "<C06 identifier sweep>", "case": key, "oid": oid, "check": "identifier_sweep", "key": key, "assignment": {"deviation": key}, "solver": {"what": what}, "reproduced": True,
+                           "replay_payload": {"property": "C06", "custom": "contracts.c06_extra.replay_identifier_sweep", "key": key, "tier": tier, "obligation": oid, "verifier_output": what}})
+    return {"evaluations": n, "distinct": n, "violations": violations, "samples": [{"alphabet": alphabet, "max_length": max_len}],
+            "bounded": [{"function": "cohdl._compiler.backend.vhdl._vhdl_repr:VhdlScope._valid_identifier", "case": "all strings over the class alphabet", "evaluations": n, "exhaustive_within_bound": True,
+                         "bound": f"strings of length <= {max_len} over {alphabet} x fallbacks (None, 'sig', 'array_type')"}]}
+
+
+def replay_identifier_sweep(payload):
+    r = identifier_sweep(payload.get("tier", "quick"), 0)
+    hit = [v for v in r["violations"] if v["key"] == payload["key"]]
+    return {"reproduced": bool(hit), "detail": hit[0]["solver"] if hit else "every result is a basic identifier"}
+
+
+_DUPLICATE_CHOICES = '''
+import re
+from cohdl import std, Entity, Port, Bit, BitVector, Unsigned, select_with
+class E(Entity):
+    a = Port.input(Unsigned[2])
+    b = Port.input(BitVector[2])
+    r = Port.output(Bit)
+    s = Port.output(Bit)
+    def architecture(self):
+        @std.sequential
+        def proc():
+            match self.b:
+                case "01":
+                    self.r <<= True
+                case "10":
+                    self.r <<= False
+                case "01":
+                    self.r <<= False
+        @std.concurrent
+        def logic():
+            self.s <<= select_with(self.a, {1: self.b[0], 2: self.b[1], Unsigned[2](1): self.b[1]}, default=self.b[0])
+t = std.VhdlCompiler.to_string(E)
+case_choices = re.findall(r"when (\\S+) =>", t)
+select_choices = re.findall(r"when (\\S+)[,;]", t)
+print("CASE", case_choices, "SELECT", select_choices)
+print("DUPLICATES" if len(set(case_choices)) != len(case_choices) or len(set(select_choices)) != len(select_choices) else "DISTINCT")
+'''
+
+
+def replay_duplicate_choices(payload):
+    rc, out = _run_design(_DUPLICATE_CHOICES)
+    return {"reproduced": rc == 0 and "DUPLICATES" in out, "detail": out[-400:]}
 
 
 def _run_design(src):
